@@ -32,6 +32,7 @@ type HarnessCfg struct {
 	Tiers           []string           `json:"tiers"`  // default both
 	Note            string             `json:"note"`
 	Shrink          []string           `json:"shrink"` // names of shrink overlays this harness relies on (informational)
+	ShrinkSet       string             `json:"shrink_set"` // named alternative shrink overlay list of the spec
 	Workers         int                `json:"workers"`
 	Preemptions     int                `json:"preemptions"`         // sched=all: bound on preemptive context switches per path (default 2)
 	MinMaxIte       bool               `json:"minmax_ite"`          // math mode: encode min/max/abs as ite terms instead of forking (linear harnesses)
